@@ -9,7 +9,7 @@ LEVEL = 'exploration'
 BUDGET = {'quick': 90, 'thorough': 900}
 RULE = ('Cases = histories of 8-40 (thorough: up to 300) operations from {create (six classes, run / not run), let finish (wait), '
         'terminate, restart, active_children()} issued by 1-3 simulated caller threads, optionally with a prefix inside an '
-        'autoclose_active_children() block; interval oracle against the simulated process table.')
+        'autoclose_active_children() block; directed: restart() descheduled at each of its line boundaries while another thread calls active_children(); interval oracle against the simulated process table.')
 ASSUMPTIONS = ['interval oracle: a worker alive during the whole call must be yielded; a yielded worker must not have been observed '
                'dead before the call began']
 
@@ -271,10 +271,28 @@ def make_run(sim, case):
     return Run(sim, case)
 
 
+def directed_restart_cases(ctx, rng, quick):
+    """one thread restarts a registered persistent worker and is descheduled for a while at the k-th line boundary of restart()
+    (k enumerated: before / after the old incarnation is stopped, after the object has been emptied, before it registers
+    again ...) while another thread keeps calling active_children()"""
+    out = []
+    for kind in ('pthread', 'pprocess') + (() if quick else ('premote',)):
+        for occ in range(1, 15):
+            ops1 = []
+            for _ in range(12):
+                ops1 += [['sleep', 0.07], ['active']]
+            out.append({'kind': 'mixed', 'threads': [[['create', kind, 'slow'], ['restart', 0], ['active']], ops1],
+                        'remote': kind == 'premote', 'autoclose_prefix': 0, 'policy': {'kind': 'random', 'p_stay': rng.choice([0.5, 0.9])},
+                        'knobs': {}, 'sched_seed': ctx.case_seed('restart-vs-active', kind, occ),
+                        'fault': {'kind': 'stall', 'any_thread': True, 'qualname': 'PersistentWorker.restart', 'occ': occ, 'duration': 0.5}})
+    return out
+
+
 def plan(ctx):
     rng = ctx.rng
     quick = ctx.tier != 'thorough'
     n = 1200 if quick else 15000
+    ctx.run(directed_restart_cases(ctx, rng, quick), 'restart-vs-active_children')
     cases = []
     for i in range(n):
         cases.append(gen_case(ctx, rng, i, maxops=40 if quick or rng.random() < 0.8 else 300))
